@@ -777,17 +777,9 @@ theorem cDelTargets_HT : ∀ ts : List Expr, HT reg n H0 (cDelTargets ts)
         | exact HT.cons (step_delName _) (cDelTargets_HT r)
         | exact (cExpr_HT _).append (cDelTargets_HT r)
 
-theorem allNames_HT (targets : List Expr) (v : Expr) :
-    HT reg n H0 (match targets, v with
-         | [.name nm], .list es => if nm = "__all__".toList then (match strConsts es with | some ns => [Op.allNames ns] | none => []) else []
-         | [.name nm], .tuple es => if nm = "__all__".toList then (match strConsts es with | some ns => [Op.allNames ns] | none => []) else []
-         | _, _ => []) := by
+theorem allNames_HT (targets : List Expr) (v : Expr) : HT reg n H0 (cAll targets v) := by
+  unfold cAll
   split
-  · split
-    · split
-      · exact HT.single (step_allNames _)
-      · exact HT.nil
-    · exact HT.nil
   · split
     · split
       · exact HT.single (step_allNames _)
@@ -930,5 +922,42 @@ theorem inv_analyze (reg : Registry) (builtins : Scope) (userNs : List Scope) (p
     Inv reg (3 + userNs.length) (initState builtins userNs).heap (analyze reg builtins userNs prog) := by
   unfold analyze
   exact inv_finishDeferred ((cStmts_HT 0 prog) _ (inv_init reg builtins userNs)).1
+
+theorem initHeap_user (builtins : Scope) (ns : List Scope) (i : Nat) (hi : i < ns.length) :
+    (initState builtins ns).heap.get (3 + i) = ns.getD i {} := by
+  have h1 : (initState builtins ns).heap
+      = [builtins, ({ items := [("__file__".toList, Val.none)] } : Scope), ({} : Scope)] ++ (ns ++ [({} : Scope)]) := by
+    simp [initState]
+  rw [h1]
+  simp only [Heap.get, List.getD_eq_getElem?_getD]
+  rw [List.getElem?_append_right (by simp)]
+  simp [List.getElem?_append_left hi]
+
+
+theorem initHeap_priv (builtins : Scope) (ns : List Scope) :
+    (initState builtins ns).heap.get (3 + ns.length) = {} := by
+  have h1 : (initState builtins ns).heap
+      = ([builtins, ({ items := [("__file__".toList, Val.none)] } : Scope), ({} : Scope)] ++ ns) ++ [({} : Scope)] := rfl
+  have h2 : 3 + ns.length
+      = ([builtins, ({ items := [("__file__".toList, Val.none)] } : Scope), ({} : Scope)] ++ ns).length := by
+    simp; omega
+  rw [h1, h2, Heap.get_append_new]
+
+theorem initState_ids (builtins : Scope) (ns : List Scope) :
+    ∃ scopes, (initState builtins ns).stack.ids = normIds scopes ++ [3 + ns.length] ∧
+      scopes = (normIds ((List.range ns.length).map (· + 3))).filter
+        (fun i => !((initState builtins ns).heap.get i).isClass) := by
+  refine ⟨_, ?_, rfl⟩
+  have hfresh : (3 + ns.length) ∉ (normIds ((List.range ns.length).map (· + 3))).filter
+        (fun i => !((initState builtins ns).heap.get i).isClass) := by
+    intro hm
+    have hi := (List.mem_filter.mp hm).1
+    rcases mem_normIds hi with h | h | h
+    · omega
+    · omega
+    · simp only [List.mem_map, List.mem_range] at h
+      obtain ⟨a, ha, hh⟩ := h; omega
+  show normIds (_ ++ [3 + ns.length]) = _
+  rw [normIds_snoc_fresh (by omega) (by omega) hfresh]
 
 end Pfb.PyCore
